@@ -496,4 +496,56 @@ def run(ctx):
     one_step_law(ctx, drv, True, ctx.scale(3, 4), ctx.scale(120, 3000))
     wrappers(ctx, drv)
     percolate_law(ctx)
+    large_networks(ctx)
     generated_model(ctx)
+
+
+def large_networks(ctx):
+    """networks with thousands of edges and a small transmission probability — where a size-triggered code path (bulk
+    sampling, skip-ahead) would switch on.  Real seeded generators; only events of probability < 1e-30 under the stated law
+    are reported, so no statistics are involved: over R runs of `percolate_network(G, p)` every edge of G must be kept at
+    least once ((1-p)^R < 1e-30) and dropped at least once (p^R < 1e-30), the kept graph is a spanning subgraph, and in the
+    percolation-based and the direct discrete SIR on a long path from its end node the epidemic must leave the end node in
+    at least one of R runs."""
+    import random, math
+    import networkx as nx, numpy as np, EoN
+    for k in range(ctx.scale(2, 6)):
+        r = ctx.rng
+        p = r.choice([0.1, 0.2])
+        R = int(math.ceil(70.0 / -math.log10(1 - p) / 2.0))          # (1-p)^R <= 1e-35
+        kind = ["gnm", "path"][k % 2]
+        seed = r.randrange(10 ** 6)
+        G = nx.gnm_random_graph(3000, 6000, seed=seed) if kind == "gnm" else nx.path_graph(5400)
+        rep = dict(entry="percolate_network", stream="large-networks", kind=kind, edges=G.number_of_edges(), p=p, runs=R, seed=seed)
+        ctx.case(rep, nontrivial=True)
+        ctx.count("large-networks:" + kind)
+        random.seed(seed); np.random.seed(seed)
+        kept = {}
+        bad = None
+        for _ in range(R):
+            H = EoN.percolate_network(G, p)
+            if set(H) != set(G) or any(not G.has_edge(u, v) for u, v in H.edges()):
+                bad = "the percolated network is not a spanning subgraph of G"
+                break
+            for u, v in H.edges():
+                e = (u, v) if u <= v else (v, u)
+                kept[e] = kept.get(e, 0) + 1
+        if bad is None:
+            never = [e for e in ((min(u, v), max(u, v)) for u, v in G.edges()) if e not in kept]
+            always = [e for e, c in kept.items() if c == R]
+            if never:
+                bad = "%d edge(s) never kept in %d runs with p=%s (probability (1-p)^R < 1e-30 each), e.g. %s" % (len(never), R, p, never[:3])
+            elif always and p ** R < 1e-30:
+                bad = "%d edge(s) kept in every one of %d runs with p=%s, e.g. %s" % (len(always), R, p, always[:3])
+        if bad:
+            ctx.violation("percolate_network on a large network: " + bad, rep)
+        if kind == "path":
+            for sim in ("percolation_based_discrete_SIR", "basic_discrete_SIR"):
+                sizes = []
+                for _ in range(R):
+                    t, S, I, Rr = getattr(EoN, sim)(G, p, initial_infecteds=0)
+                    sizes.append(int(Rr[-1]))
+                ctx.count("large-networks:" + sim)
+                if max(sizes) == 1:
+                    ctx.violation("%s on a path of %d nodes from its end node with p=%s: the neighbour was never infected in %d runs "
+                                  "(probability (1-p)^R < 1e-30 under the Reed-Frost law)" % (sim, G.order(), p, R), dict(rep, entry=sim))
